@@ -8,3 +8,8 @@ open Mud.C06
 #print axioms coupling_abs_gauge_invariant
 #print axioms force_matrix_abs_gauge_invariant
 #print axioms update_fresh_results
+#print axioms track_chain
+#print axioms track_is_flip
+#print axioms force_history_independent
+#print axioms coupling_history_independent
+#print axioms coupling_sign_follows_states
